@@ -26,9 +26,9 @@ Notation gtr := (get_tls_records C suite_table suite_parts keylog sip sport).
 Lemma feed_packet_traffic s p s' : feedp s p = Ok s' -> prefix (rs_traffic s) (rs_traffic s').
 Proof.
   unfold feed_packet. destruct (from_server_id sip sport p).
-  - destruct (extract _) as [r|]; [|discriminate]. cbn [bind].
+  - destruct (extract _ _) as [[[nx buf] recs]|]; [|discriminate]. cbn [bind].
     destruct (handle_records _ _ _ _ _ _ _) as [x|]; [|discriminate]. cbn [bind]. intros H; injection H as <-. cbn [rs_traffic]. eexists; reflexivity.
-  - destruct (extract _) as [r|]; [|discriminate]. cbn [bind].
+  - destruct (extract _ _) as [[[nx buf] recs]|]; [|discriminate]. cbn [bind].
     destruct (handle_records _ _ _ _ _ _ _) as [x|]; [|discriminate]. cbn [bind]. intros H; injection H as <-. cbn [rs_traffic]. eexists; reflexivity.
 Qed.
 
